@@ -16,13 +16,51 @@
 
 static char const *opname = "op";
 static char const *fam = "list";
-#define FAIL(clause, ...)                                            \
-    do {                                                             \
-        char key_[112];                                              \
-        snprintf(key_, sizeof(key_), "%s_%s/%s", fam, opname, clause); \
-        vf_viol(key_, __VA_ARGS__);                                  \
-        ok = 0;                                                      \
+/* SURFACE section: non-null while the operation in flight entered the library through a macro form instead of the
+ * function (A_QUE_PUSH_BACK(T, ctx) for a_que_push_back(ctx) ...); the form becomes the last component of the key */
+static char const *xform;
+/* key "<family>_<operation>/<clause>[/<form>]"; one out-of-line reporter keeps the expansions of FAIL small */
+static void x_viol(char const *clause, char const *form, char const *fmt, ...) __attribute__((format(printf, 3, 4), noinline));
+static void x_viol(char const *clause, char const *form, char const *fmt, ...)
+{
+    char key[160], msg[1500];
+    va_list ap;
+    if (form) { snprintf(key, sizeof(key), "%s_%s/%s/%s", fam, opname, clause, form); }
+    else { snprintf(key, sizeof(key), "%s_%s/%s", fam, opname, clause); }
+    va_start(ap, fmt);
+    vsnprintf(msg, sizeof(msg), fmt, ap);
+    va_end(ap);
+    vf_viol(key, "%s", msg);
+}
+#define FAIL(clause, ...)                       \
+    do {                                        \
+        x_viol(clause, xform, __VA_ARGS__);     \
+        ok = 0;                                 \
     } while (0)
+/* a clause judged through one named public form (macro or primitive) of list.h / slist.h / que.h */
+#define XFAIL(clause, form, ...)                \
+    do {                                        \
+        x_viol(clause, form, __VA_ARGS__);      \
+        ok = 0;                                 \
+    } while (0)
+
+/* hooks of the SURFACE section (defined below the queue family, documented there) */
+static vf_rng XR;
+static void xr_seed(uint64_t c);
+static int list_forms(void);
+static int list_coda(void);
+static int slist_forms(void);
+static int slist_coda(void);
+static int que_forms(void);
+static int que_edges(int k);
+static int que_drain(int k);
+static void *qx_push_back(a_que *q);
+static void *qx_push_fore(a_que *q);
+static void *qx_pull_back(a_que *q);
+static void *qx_pull_fore(a_que *q);
+static void *qx_insert(a_que *q, size_t idx);
+static void *qx_remove(a_que *q, size_t idx);
+static void *qx_push_sort(a_que *q, void const *key, int (*cmp)(void const *, void const *));
 
 static void cell3(char const *op, int a, int b, int c)
 {
@@ -125,6 +163,7 @@ static void list_case(uint64_t c, vf_rng *r)
 {
     int nops = 40 + (int)vf_below(r, 60), alive = 1;
     fam = "list";
+    xr_seed(c);
     for (int i = 0; i < NN; ++i)
     {
         LN[i] = (lnode *)malloc(sizeof(lnode));
@@ -421,7 +460,9 @@ static void list_case(uint64_t c, vf_rng *r)
         }
         (void)ok;
         alive = list_check();
+        if (alive && (i & 3) == 3) { alive = list_forms(); } /* SURFACE: every public iteration / entry form against the model */
     }
+    if (alive) { alive = list_coda(); } /* SURFACE: forms once more, removal passes through the forsafe forms, hand-built rings */
     for (int i = 0; i < NN; ++i) { free(LN[i]); }
     free(LH[0]);
     free(LH[1]);
@@ -496,6 +537,7 @@ static void slist_case(uint64_t c, vf_rng *r)
 {
     int nops = 40 + (int)vf_below(r, 60), alive = 1;
     fam = "slist";
+    xr_seed(c);
     for (int i = 0; i < NN; ++i)
     {
         SN[i] = (snode *)malloc(sizeof(snode));
@@ -629,7 +671,9 @@ static void slist_case(uint64_t c, vf_rng *r)
         }
         (void)ok;
         alive = slist_check();
+        if (alive && (i & 3) == 3) { alive = slist_forms(); } /* SURFACE */
     }
+    if (alive) { alive = slist_coda(); } /* SURFACE */
     for (int i = 0; i < NN; ++i) { free(SN[i]); }
     free(SL[0]);
     free(SL[1]);
@@ -679,11 +723,104 @@ static void cmp_pick_style(vf_rng *r)
     }
     vf_log("comparator result style: %s", cmp_style_name[cmp_style]);
 }
+/* The comparator contract speaks of elements: every pointer it receives must be an enqueued element (of either queue), the
+ * key handed to a_que_push_sort, or the element pushed just before a_que_sort_fore / a_que_sort_back (not yet in the model).
+ * Anything else (the ring sentinel of an empty or one-element queue taken for a node, a pooled node) is counted and judged
+ * after the call ("comparator-received-non-element"); such a call is answered with 0 without touching the pointer. */
+static void const *cmp_extra[2];
+static int cmp_foreign;
+static void cmp_arm(void const *key, void const *pushed)
+{
+    cmp_extra[0] = key;
+    cmp_extra[1] = pushed;
+    cmp_foreign = 0;
+}
+static int cmp_legit(void const *p)
+{
+    if (p && (p == cmp_extra[0] || p == cmp_extra[1])) { return 1; }
+    for (int k = 0; k < 2; ++k)
+    {
+        for (size_t i = 0; i < Q[k].n; ++i)
+        {
+            if (Q[k].addr[i] == p) { return 1; }
+        }
+    }
+    return 0;
+}
 static int q_cmp(void const *l, void const *r)
 {
+    if (!cmp_legit(l) || !cmp_legit(r))
+    {
+        ++cmp_foreign;
+        return 0;
+    }
     return cmp_result(*(unsigned char const *)l, *(unsigned char const *)r);
 }
-static void q_dtor(void *p) { (void)p; }
+/* Destructor accounting (SURFACE). Every API call that takes an element destructor (a_que_die, a_que_dtor, a_que_drop,
+ * a_que_setz) runs between dt_begin and dt_end: the callback records the address of every call. Judged: every element
+ * enqueued at the time of the call receives exactly one call and still holds its bytes when it does; no address receives
+ * two calls; every other address that receives a call is a node of this queue's recycling pool (snapshot of ptr_[0..cur_)
+ * taken before the call) - never a foreign address. Calls on pooled nodes (elements pulled earlier; the library does make
+ * them) are counted, not judged, and no order is documented. Without a destructor no call may arrive. */
+#define DTMAX 256
+static struct
+{
+    void *seen[DTMAX], *pool[DTMAX], *enq[QMAX];
+    int nseen, npool, nenq, overflow, changed, k;
+} DT;
+static void q_dtor(void *p)
+{
+    qmodel const *m = &Q[DT.k];
+    if (DT.nseen < DTMAX) { DT.seen[DT.nseen++] = p; }
+    else { DT.overflow = 1; }
+    for (size_t i = 0; i < m->n; ++i)
+    {
+        if (m->addr[i] == p && memcmp(p, m->pay[i], m->siz) != 0) { ++DT.changed; }
+    }
+}
+static void dt_begin(int k)
+{
+    qmodel const *m = &Q[k];
+    a_que const *q = m->q;
+    memset(&DT, 0, sizeof(DT));
+    DT.k = k;
+    for (size_t i = 0; i < m->n; ++i) { DT.enq[DT.nenq++] = m->addr[i]; }
+    for (size_t i = 0; i < q->cur_ && DT.npool < DTMAX; ++i) { DT.pool[DT.npool++] = q->ptr_[i] + 1; }
+}
+static int dt_end(int k, int passed)
+{
+    int ok = 1, pooled = 0;
+    VF_COUNT("que-destructor-calls-accounted");
+    if (!passed)
+    {
+        if (DT.nseen) { FAIL("destructor-called-though-none-was-passed", "queue %d: %d calls of an earlier destructor", k, DT.nseen); }
+        return ok;
+    }
+    VF_COUNT("que-destructor-passed");
+    if (DT.overflow) { FAIL("destructor-call-count", "queue %d: more than %d calls for %d enqueued + %d pooled nodes", k, DTMAX, DT.nenq, DT.npool); return ok; }
+    for (int i = 0; i < DT.nenq; ++i)
+    {
+        int cnt = 0;
+        for (int j = 0; j < DT.nseen; ++j) { cnt += DT.seen[j] == DT.enq[i]; }
+        if (cnt != 1) { FAIL("destructor-calls-per-enqueued-element", "queue %d: element %d of %d (at %p) received %d destructor calls (%d calls in all)", k, i, DT.nenq, DT.enq[i], cnt, DT.nseen); return ok; }
+    }
+    for (int j = 0; j < DT.nseen; ++j)
+    {
+        int known = 0, dup = 0;
+        for (int i = 0; i < DT.nenq; ++i) { known |= DT.seen[j] == DT.enq[i]; }
+        for (int i = 0; i < DT.npool; ++i)
+        {
+            if (DT.seen[j] == DT.pool[i]) { known = 1; ++pooled; }
+        }
+        for (int i = 0; i < j; ++i) { dup |= DT.seen[i] == DT.seen[j]; }
+        if (!known) { FAIL("destructor-on-foreign-address", "queue %d: call %d received %p, neither an enqueued element nor a pooled node of this queue", k, j, DT.seen[j]); return ok; }
+        if (dup) { FAIL("destructor-called-twice", "queue %d: %p received two calls within one API call", k, DT.seen[j]); return ok; }
+    }
+    if (DT.changed) { FAIL("destructor-sees-changed-element", "queue %d: %d enqueued elements no longer held their bytes when the destructor ran", k, DT.changed); }
+    VF_ADD("que-destructor-calls-on-enqueued-elements", DT.nenq);
+    VF_ADD("que-destructor-calls-on-pooled-nodes", pooled);
+    return ok;
+}
 
 static void q_mk(vf_rng *r, qmodel *m, unsigned char *out, int key)
 {
@@ -783,6 +920,7 @@ static void que_case(uint64_t c, vf_rng *r)
     int nops = 40 + (int)vf_below(r, 70), alive = 1;
     size_t siz = sizes[vf_below(r, 5)];
     fam = "que";
+    xr_seed(c);
     cmp_pick_style(r);
     qserial = (uint32_t)(c * 1000);
     for (int k = 0; k < 2; ++k)
@@ -799,6 +937,13 @@ static void que_case(uint64_t c, vf_rng *r)
         else { Q[k].q = a_que_new(siz); }
         Q[k].siz = siz ? siz : 1;
     }
+    if (vf_chance(&XR, 1, 2))
+    {
+        /* SURFACE: every entry point on the freshly constructed empty queue, then on a one-element queue */
+        alive = que_check();
+        for (int k = 0; k < 2 && alive; ++k) { alive = que_edges(k); }
+        xform = NULL;
+    }
     if (vf_want_sample() && c % 9 == 2)
     {
         vf_sample("queue history %" PRIu64 ": two a_que of element size %zu, %d ops from {push/pull both ends, insert, remove (indices 0, mid, last, num, num+1, SIZE_MAX), push_sort, push+sort_fore, push+sort_back, swap_ of two non-adjacent elements, whole-queue a_que_swap, drop, setz, foreach}; ring, num, fore/back/at(+-i), payload bytes and element addresses compared with the model after every call", c, siz, nops);
@@ -811,20 +956,21 @@ static void que_case(uint64_t c, vf_rng *r)
         void *p;
         size_t idx;
         q_siz_cb = m->siz;
+        xform = NULL;
         ++vf.evals;
         switch (op)
         {
         case 0: case 1: case 2: case 3: case 4:
             if (m->n + 1 >= QMAX) { break; }
             q_mk(r, m, el, -1);
-            if (op < 2) { opname = "push_back"; vf_log("que %d push_back (num %zu)", k, m->n); p = a_que_push_back(m->q); idx = m->n; }
-            else if (op < 4) { opname = "push_fore"; vf_log("que %d push_fore (num %zu)", k, m->n); p = a_que_push_fore(m->q); idx = 0; }
+            if (op < 2) { opname = "push_back"; vf_log("que %d push_back (num %zu)", k, m->n); p = qx_push_back(m->q); idx = m->n; }
+            else if (op < 4) { opname = "push_fore"; vf_log("que %d push_fore (num %zu)", k, m->n); p = qx_push_fore(m->q); idx = 0; }
             else
             {
                 opname = "insert";
                 idx = q_index(r, m->n, &cls);
                 vf_log("que %d insert idx=%zu (num %zu)", k, idx, m->n);
-                p = a_que_insert(m->q, idx);
+                p = qx_insert(m->q, idx);
                 if (idx > m->n) { idx = m->n; }
             }
             if (!p) { FAIL("unexpected-null", "push returned null"); alive = 0; break; }
@@ -837,14 +983,14 @@ static void que_case(uint64_t c, vf_rng *r)
         case 5: case 6: case 7: case 8:
         {
             size_t at;
-            if (op == 5) { opname = "pull_back"; vf_log("que %d pull_back (num %zu)", k, m->n); p = a_que_pull_back(m->q); at = m->n ? m->n - 1 : 0; }
-            else if (op == 6) { opname = "pull_fore"; vf_log("que %d pull_fore (num %zu)", k, m->n); p = a_que_pull_fore(m->q); at = 0; }
+            if (op == 5) { opname = "pull_back"; vf_log("que %d pull_back (num %zu)", k, m->n); p = qx_pull_back(m->q); at = m->n ? m->n - 1 : 0; }
+            else if (op == 6) { opname = "pull_fore"; vf_log("que %d pull_fore (num %zu)", k, m->n); p = qx_pull_fore(m->q); at = 0; }
             else
             {
                 opname = "remove";
                 idx = q_index(r, m->n, &cls);
                 vf_log("que %d remove idx=%zu (num %zu)", k, idx, m->n);
-                p = a_que_remove(m->q, idx);
+                p = qx_remove(m->q, idx);
                 at = idx < m->n ? idx : (m->n ? m->n - 1 : 0);
             }
             if (!m->n)
@@ -871,24 +1017,27 @@ static void que_case(uint64_t c, vf_rng *r)
             {
                 opname = "push_sort";
                 vf_log("que %d push_sort key %u (num %zu)", k, el[0], m->n);
-                p = a_que_push_sort(m->q, el, q_cmp);
+                cmp_arm(el, NULL);
+                p = qx_push_sort(m->q, el, q_cmp);
             }
             else if (variant == 1)
             {
                 opname = "sort_fore";
                 vf_log("que %d push_fore key %u + sort_fore (num %zu)", k, el[0], m->n);
-                p = a_que_push_fore(m->q);
-                if (p) { memcpy(p, el, m->siz); a_que_sort_fore(m->q, q_cmp); }
+                p = qx_push_fore(m->q);
+                if (p) { memcpy(p, el, m->siz); cmp_arm(NULL, p); a_que_sort_fore(m->q, q_cmp); }
             }
             else
             {
                 opname = "sort_back";
                 vf_log("que %d push_back key %u + sort_back (num %zu)", k, el[0], m->n);
-                p = a_que_push_back(m->q);
-                if (p) { memcpy(p, el, m->siz); a_que_sort_back(m->q, q_cmp); }
+                p = qx_push_back(m->q);
+                if (p) { memcpy(p, el, m->siz); cmp_arm(NULL, p); a_que_sort_back(m->q, q_cmp); }
             }
             if (!p) { FAIL("unexpected-null", "push returned null"); alive = 0; break; }
             if (q_enqueued(p)) { FAIL("handed-out-node-still-enqueued", "push returned the address of an enqueued element"); alive = 0; break; }
+            VF_COUNT("que-comparator-receives-elements-only");
+            if (cmp_foreign) { FAIL("comparator-received-non-element", "%d comparator calls with a pointer that is neither an enqueued element, the key nor the pushed element", cmp_foreign); alive = 0; break; }
             if (variant == 0) { memcpy(p, el, m->siz); }
             /* locate the new element in the library's ring: the rest must be the old sequence, whole must be sorted */
             {
@@ -964,7 +1113,12 @@ static void que_case(uint64_t c, vf_rng *r)
             if (vf_chance(r, 1, 2)) { break; }
             opname = "drop";
             vf_log("que %d drop (num %zu)", k, m->n);
-            rc = a_que_drop(m->q, vf_chance(r, 1, 2) ? q_dtor : NULL);
+            {
+                void (*d)(void *) = vf_chance(r, 1, 2) ? q_dtor : NULL;
+                dt_begin(k);
+                rc = a_que_drop(m->q, d);
+                if (!dt_end(k, d != NULL)) { alive = 0; break; }
+            }
             if (rc != A_SUCCESS) { FAIL("unexpected-error", "rc %d", rc); alive = 0; break; }
             VF_COUNT("que-drop");
             cell3(opname, emp(m->n), 0, 0);
@@ -978,7 +1132,12 @@ static void que_case(uint64_t c, vf_rng *r)
             if (vf_chance(r, 2, 3)) { break; }
             opname = "setz";
             vf_log("que %d setz %zu (num %zu, size %zu)", k, nz, m->n, m->siz);
-            rc = a_que_setz(m->q, nz, vf_chance(r, 1, 2) ? q_dtor : NULL);
+            {
+                void (*d)(void *) = vf_chance(r, 1, 2) ? q_dtor : NULL;
+                dt_begin(k);
+                rc = a_que_setz(m->q, nz, d);
+                if (!dt_end(k, d != NULL)) { alive = 0; break; }
+            }
             if (rc != A_SUCCESS) { FAIL("unexpected-error", "rc %d", rc); alive = 0; break; }
             VF_COUNT("que-setz");
             cell3(opname, emp(m->n), nz > m->siz, 0);
@@ -986,6 +1145,36 @@ static void que_case(uint64_t c, vf_rng *r)
             m->siz = nz ? nz : 1;
             break;
         }
+        case 21:
+            /* SURFACE: destruction followed by construction on the same storage (a_que_dtor + a_que_ctor) resp. a_que_die +
+             * a_que_new: the queue must be usable again - the rest of the history is the judge */
+            if (vf_chance(&XR, 1, 3))
+            {
+                size_t nz = sizes[vf_below(&XR, 5)];
+                void (*d)(void *) = vf_chance(&XR, 2, 3) ? q_dtor : NULL;
+                opname = m->by_ctor ? "dtor_ctor" : "die_new";
+                vf_log("que %d %s: destroyed %s a destructor (num %zu), constructed again with element size %zu", k, opname, d ? "with" : "without", m->n, nz);
+                dt_begin(k);
+                if (m->by_ctor)
+                {
+                    a_que_dtor(m->q, d);
+                    memset(m->q, 0x5A, sizeof(a_que));
+                    a_que_ctor(m->q, nz);
+                }
+                else
+                {
+                    a_que_die(m->q, d);
+                    m->q = a_que_new(nz);
+                }
+                cell3(opname, emp(m->n), d != NULL, (int)nz);
+                m->n = 0;
+                m->siz = nz ? nz : 1;
+                if (!m->q) { FAIL("unexpected-null", "a_que_new returned null"); alive = 0; break; }
+                if (!dt_end(k, d != NULL)) { alive = 0; break; }
+                VF_COUNT("que-destroyed-and-constructed-again");
+                break;
+            }
+            /* fall through */
         default:
             if (m->siz >= 8)
             {
@@ -1010,19 +1199,1247 @@ static void que_case(uint64_t c, vf_rng *r)
         }
         (void)ok;
         if (alive) { alive = que_check(); }
+        xform = NULL;
+        if (alive && (i & 3) == 3) { alive = que_forms(); } /* SURFACE: typed accessors and the four iteration macros against the model */
     }
+    xform = NULL;
+    if (alive) { alive = que_forms(); }
+    /* SURFACE: drained by pulls, then every entry point on the empty queue whose nodes are all in the pool, and on one element */
+    for (int k = 0; k < 2 && alive; ++k) { alive = que_drain(k) && que_edges(k); }
+    xform = NULL;
     if (alive)
     {
         opname = "die";
         vf_log("que die both");
         for (int k = 0; k < 2; ++k)
         {
-            if (Q[k].by_ctor) { a_que_dtor(Q[k].q, k ? q_dtor : NULL); free(Q[k].q); }
-            else { a_que_die(Q[k].q, k ? q_dtor : NULL); }
+            int ok = 1;
+            void (*d)(void *) = vf_chance(&XR, 2, 3) ? q_dtor : NULL;
+            dt_begin(k);
+            if (Q[k].by_ctor) { a_que_dtor(Q[k].q, d); free(Q[k].q); }
+            else { a_que_die(Q[k].q, d); }
+            Q[k].n = 0; /* the elements are gone: dt_end compares with the snapshot taken by dt_begin */
+            ok = dt_end(k, d != NULL);
+            (void)ok;
         }
         VF_COUNT("que-destroyed");
     }
 }
+
+/* Compile-time budget: the section is some 1300 lines of walks that exist once per macro form; under ASan+UBSan their
+ * optimisation costs more build time than their execution saves, so the section (and only it) is compiled without optimisation. */
+#pragma GCC push_options
+#pragma GCC optimize("O0")
+/* ===================================================================== SURFACE: every public entry point and macro form
+ * "The other surface": the same functionality reached through a different door. Everything list.h, slist.h and que.h
+ * define is listed here with the clause that executes AND judges it (counter `form/<name>`, all of them in `require`).
+ *   [ops]    = the operation histories of list_case / slist_case / que_case above (lock-step model, ring walk after every call)
+ *   [forms]  = list_forms / slist_forms / que_forms: after every 4th operation of a history and at its end the container is
+ *              walked through the form and must yield exactly the model's sequence (addresses, contents, count, order)
+ *   [remove] = list_forsafe_remove / slist_forsafe_remove: a pass at the end of the history that unlinks the current
+ *              element inside the loop body (what the forsafe forms are documented for), model updated, rings re-walked
+ *   [prims]  = list_prims / slist_prims: structures built by hand from the primitives on an enclosing struct whose link
+ *              member is NOT the first member (so a_list_entry / a_slist_entry subtract a real offset)
+ *   [typed]  = qx_*: the typed macro replaces the function in a random half of the queue operations (same model update,
+ *              same clauses, key suffixed with the form)
+ *
+ * include/a/list.h - 21 functions (all A_INTERN), 17 function-like macros
+ *   a_list_ctor [ops,prims]  a_list_init [ops,prims]  a_list_dtor [prims; que.c pull/remove/drop]  a_list_link [ops set_ chains, prims]
+ *   a_list_loop [prims]  a_list_add_ [prims; every add/mov/rot/set/swap]  a_list_add_node [ops]  a_list_add_next [ops]  a_list_add_prev [ops]
+ *   a_list_del_ [ops,prims]  a_list_del_node [ops,remove]  a_list_del_next [ops]  a_list_del_prev [ops]  a_list_set_ [ops,prims]
+ *   a_list_set_node [ops]  a_list_mov_next [ops]  a_list_mov_prev [ops]  a_list_rot_next [ops]  a_list_rot_prev [ops]  a_list_swap_ [ops]
+ *   a_list_swap_node [ops; a_que_swap_]
+ *   A_LIST_INIT [prims: static and block-scope initialiser]  a_list_(_, x) [forms, with `*` and `const *`; a_que_foreach family]
+ *   a_list_entry [forms,prims]  a_list_entry_next [forms,prims]  a_list_entry_prev [forms,prims]
+ *   a_list_foreach_ [forms, both directions]  A_LIST_FOREACH_ [forms, both directions, iterator `a_list const *` on a const head]
+ *   a_list_foreach_next / a_list_foreach_prev [ops,forms]  A_LIST_FOREACH_NEXT / A_LIST_FOREACH_PREV [forms; a_que_at, a_que_insert, a_que_remove]
+ *   a_list_forsafe_ / A_LIST_FORSAFE_ [forms,remove, both directions]  a_list_forsafe_next / a_list_forsafe_prev [ops,forms,remove]
+ *   A_LIST_FORSAFE_NEXT / A_LIST_FORSAFE_PREV [forms,remove; a_que_dtor]
+ * include/a/slist.h - 11 functions (all A_INTERN), 8 function-like macros + the object-like initialiser A_SLIST_NODE
+ *   a_slist_ctor [ops,prims]  a_slist_init [ops,prims]  a_slist_dtor [prims]  a_slist_link [prims; every add/del/mov/rot]
+ *   a_slist_add [ops]  a_slist_add_head [ops]  a_slist_add_tail [ops,prims]  a_slist_del [ops,remove]  a_slist_del_head [ops,prims]
+ *   a_slist_mov [ops]  a_slist_rot [ops,prims]
+ *   A_SLIST_NODE [prims]  A_SLIST_INIT [prims: static and block-scope]  a_slist_(_, x) [forms, `*` and `const *`]
+ *   a_slist_entry [forms,prims]  a_slist_entry_next [forms,prims]  a_slist_foreach [ops,forms]  A_SLIST_FOREACH [forms, also with a const iterator]
+ *   a_slist_forsafe [ops,forms,remove]  A_SLIST_FORSAFE [forms,remove]
+ * include/a/que.h + src/que.c - 7 A_INTERN + 17 A_EXTERN functions, 16 function-like macros
+ *   a_que_siz a_que_num a_que_fore a_que_back a_que_swap_ [ops: que_check after every call]  a_que_fore_ a_que_back_ [forms; via fore/back]
+ *   a_que_new a_que_die a_que_ctor a_que_dtor a_que_swap a_que_drop a_que_setz a_que_at a_que_sort_fore a_que_sort_back a_que_push_sort
+ *   a_que_push_fore a_que_push_back a_que_pull_fore a_que_pull_back a_que_insert a_que_remove [ops]
+ *   A_QUE_FORE_ A_QUE_BACK_ A_QUE_FORE A_QUE_BACK A_QUE_AT [forms, T in {unsigned char, unsigned char const, uint64_t, uint64_t const, 24-byte struct}]
+ *   A_QUE_PUSH_SORT A_QUE_PUSH_FORE A_QUE_PUSH_BACK A_QUE_PULL_FORE A_QUE_PULL_BACK A_QUE_INSERT A_QUE_REMOVE [typed, T in {unsigned char,
+ *   unsigned char const, uint64_t}]
+ *   a_que_foreach a_que_foreach_reverse (T, S = *) A_QUE_FOREACH A_QUE_FOREACH_REVERSE (T = element pointer type) [forms, the five T above;
+ *   the const instantiations walk through an `a_que const *`]
+ * Not judged: the value of the forsafe helper variable `at` by itself (documented only as "temporary storage"; it is judged
+ * through what it is for - a_slist_del(ctx, at) must unlink the current node, the list forms must survive the unlinking).
+ * a_que_foreach* save the successor like a forsafe form, but their documentation promises iteration only: no removal inside.
+ *
+ * All random choices of this section come from XR, a stream forked from (seed, "C05S", case): the operation histories
+ * of the cases above are what they were before the section existed.
+ * Violation keys: "<family>_<forms|forsafe_remove|prims>/<clause>/<form>", typed operations "<family>_<op>/<clause>/<FORM>".
+ */
+static void xr_seed(uint64_t c)
+{
+    vf_rng_seed(&XR, vf.seed, vf_hash_str("C05S"), c);
+    xform = NULL;
+}
+
+/* "Poisoned" link fields point at these foreign objects: a form that fails to write a link leaves the foreign address in
+ * the structure and the walkers report it (the process does not have to die on a wild pointer first). */
+static a_list x_poison = A_LIST_INIT(x_poison);
+static a_slist_node x_spoison = A_SLIST_NODE;
+static a_slist x_static_slist = A_SLIST_INIT(x_static_slist);
+
+/* ------------------------------------------------------------------ list.h: observation forms */
+/* body of one step of a walk of list k (rev: backward); the loop it sits in is left on the first disagreement */
+__attribute__((noinline)) static int lw_step(char const *form, a_list const *it, int k, int rev, int *n)
+{
+    int ok = 1, id = l_id_of((a_list *)it), want;
+    if (*n >= LMn[k]) { XFAIL("walk-longer-than-model", form, "list %d: more than %d nodes visited", k, LMn[k]); return 0; }
+    want = LM[k][rev ? LMn[k] - 1 - *n : *n];
+    if (id != want) { XFAIL("sequence", form, "list %d visit %d: node %d, model %d", k, *n, id, want); return 0; }
+    ++*n;
+    return ok;
+}
+__attribute__((noinline)) static int lw_end(char const *form, int k, int n)
+{
+    int ok = 1;
+    if (n != LMn[k]) { XFAIL("count", form, "list %d: visited %d of %d nodes", k, n, LMn[k]); }
+    return ok;
+}
+#define LW_STEP(form, itv, k, rev) \
+    {                              \
+        if (!lw_step(form, itv, k, rev, &n)) { ok = 0; break; } \
+    }
+#define LW_END(form, k) \
+    if (ok) { ok = lw_end(form, k, n); }
+/* one evaluation of every walking form (list_forms executes each of them once per list, the generic `_` forms twice) */
+__attribute__((noinline)) static void lf_count(void)
+{
+    VF_COUNT("form/a_list_foreach_next");
+    VF_COUNT("form/a_list_foreach_prev");
+    VF_ADD("form/a_list_foreach_", 2);
+    VF_COUNT("form/A_LIST_FOREACH_NEXT");
+    VF_COUNT("form/A_LIST_FOREACH_PREV");
+    VF_ADD("form/A_LIST_FOREACH_", 2);
+    VF_COUNT("form/a_list_forsafe_next");
+    VF_COUNT("form/a_list_forsafe_prev");
+    VF_ADD("form/a_list_forsafe_", 2);
+    VF_COUNT("form/A_LIST_FORSAFE_NEXT");
+    VF_COUNT("form/A_LIST_FORSAFE_PREV");
+    VF_ADD("form/A_LIST_FORSAFE_", 2);
+}
+
+static int list_forms(void)
+{
+    int ok = 1, n;
+    char const *op_ = opname;
+    opname = "forms";
+    for (int k = 0; k < 2 && ok; ++k)
+    {
+        a_list *h = LH[k], *it, *at;
+        a_list const *ch = LH[k], *cit, *cat;
+        lf_count();
+        /* foreach, lower case (the form declares its iterator) */
+        n = 0; a_list_foreach_next(p, h) LW_STEP("a_list_foreach_next", p, k, 0) LW_END("a_list_foreach_next", k)
+        n = 0; a_list_foreach_prev(p, h) LW_STEP("a_list_foreach_prev", p, k, 1) LW_END("a_list_foreach_prev", k)
+        n = 0; a_list_foreach_(p, ch, next) LW_STEP("a_list_foreach_", p, k, 0) LW_END("a_list_foreach_", k)
+        n = 0; a_list_foreach_(p, h, prev) LW_STEP("a_list_foreach_", p, k, 1) LW_END("a_list_foreach_", k)
+        /* foreach, upper case (iterator supplied; second instantiation: pointer to const on a const head) */
+        n = 0; A_LIST_FOREACH_NEXT(it, h) LW_STEP("A_LIST_FOREACH_NEXT", it, k, 0) LW_END("A_LIST_FOREACH_NEXT", k)
+        n = 0; A_LIST_FOREACH_PREV(it, h) LW_STEP("A_LIST_FOREACH_PREV", it, k, 1) LW_END("A_LIST_FOREACH_PREV", k)
+        n = 0; A_LIST_FOREACH_(it, h, next) LW_STEP("A_LIST_FOREACH_", it, k, 0) LW_END("A_LIST_FOREACH_", k)
+        n = 0; A_LIST_FOREACH_(cit, ch, prev) LW_STEP("A_LIST_FOREACH_", cit, k, 1) LW_END("A_LIST_FOREACH_", k)
+        /* forsafe without removal */
+        n = 0; a_list_forsafe_next(p, q, h) LW_STEP("a_list_forsafe_next", p, k, 0) LW_END("a_list_forsafe_next", k)
+        n = 0; a_list_forsafe_prev(p, q, h) LW_STEP("a_list_forsafe_prev", p, k, 1) LW_END("a_list_forsafe_prev", k)
+        n = 0; a_list_forsafe_(p, q, h, next) LW_STEP("a_list_forsafe_", p, k, 0) LW_END("a_list_forsafe_", k)
+        n = 0; a_list_forsafe_(p, q, ch, prev) LW_STEP("a_list_forsafe_", p, k, 1) LW_END("a_list_forsafe_", k)
+        n = 0; A_LIST_FORSAFE_NEXT(it, at, h) LW_STEP("A_LIST_FORSAFE_NEXT", it, k, 0) LW_END("A_LIST_FORSAFE_NEXT", k)
+        n = 0; A_LIST_FORSAFE_PREV(it, at, h) LW_STEP("A_LIST_FORSAFE_PREV", it, k, 1) LW_END("A_LIST_FORSAFE_PREV", k)
+        n = 0; A_LIST_FORSAFE_(it, at, h, next) LW_STEP("A_LIST_FORSAFE_", it, k, 0) LW_END("A_LIST_FORSAFE_", k)
+        n = 0; A_LIST_FORSAFE_(cit, cat, ch, prev) LW_STEP("A_LIST_FORSAFE_", cit, k, 1) LW_END("A_LIST_FORSAFE_", k)
+        /* entry forms and the cast form on every ring member (pos -1: the head sentinel) */
+        for (int pos = -1; pos < LMn[k] && ok; ++pos)
+        {
+            a_list *mb = ring_member(k, pos);
+            int nx = pos + 1 < LMn[k] ? LM[k][pos + 1] : -1;                     /* node after mb, -1: the head */
+            int pv = pos > 0 ? LM[k][pos - 1] : pos < 0 && LMn[k] ? LM[k][LMn[k] - 1] : -1; /* node before mb */
+            if (pos >= 0)
+            {
+                lnode *e = a_list_entry(mb, lnode, n);
+                lnode const *ce = a_list_entry((a_list const *)mb, lnode const, n);
+                VF_COUNT("form/a_list_entry");
+                if (e != LN[LM[k][pos]] || ce != e || e->id != LM[k][pos]) { XFAIL("entry", "a_list_entry", "list %d position %d: %p is not node %d", k, pos, (void *)e, LM[k][pos]); }
+                VF_COUNT("form/a_list_");
+                if (a_list_(*, e) != mb || a_list_(const *, ce) != mb) { XFAIL("cast", "a_list_", "list %d position %d", k, pos); }
+            }
+            if (nx >= 0)
+            {
+                lnode *e = a_list_entry_next(mb, lnode, n);
+                VF_COUNT("form/a_list_entry_next");
+                if (e != LN[nx]) { XFAIL("entry", "a_list_entry_next", "list %d ring position %d: %p is not node %d", k, pos, (void *)e, nx); }
+            }
+            if (pv >= 0)
+            {
+                lnode const *e = a_list_entry_prev((a_list const *)mb, lnode const, n);
+                VF_COUNT("form/a_list_entry_prev");
+                if (e != LN[pv]) { XFAIL("entry", "a_list_entry_prev", "list %d ring position %d: %p is not node %d", k, pos, (void const *)e, pv); }
+            }
+        }
+    }
+    opname = op_;
+    return ok;
+}
+
+/* ------------------------------------------------------------------ list.h: removal inside the forsafe forms */
+static char const *const lr_name[8] = {"a_list_forsafe_next", "a_list_forsafe_prev", "A_LIST_FORSAFE_NEXT", "A_LIST_FORSAFE_PREV",
+                                       "a_list_forsafe_(next)", "a_list_forsafe_(prev)", "A_LIST_FORSAFE_(next)", "A_LIST_FORSAFE_(prev)"};
+/* One pass over list k through forsafe form `form` (odd: backward). The node of visit j is unlinked inside the body when
+ * bit j of the mask is set and left as a one-node ring (next == prev == itself): a form that reads the successor from the
+ * current node after the body stays on that node for ever (bounded: the visit count) instead of reaching the saved one. */
+static int list_forsafe_remove(int k, int form)
+{
+    int ok = 1, n = 0, cnt = LMn[k], rev = form & 1, gone[NN + 2];
+    uint32_t mask;
+    a_list *h = LH[k], *it, *at;
+    switch ((int)vf_below(&XR, 4))
+    {
+    case 0: mask = ~0u; break;
+    case 1: mask = (uint32_t)vf_u64(&XR); break;
+    case 2: mask = (uint32_t)(vf_u64(&XR) & vf_u64(&XR)); break;
+    default: mask = 1u | (cnt ? 1u << (cnt - 1) : 0u); break;
+    }
+    memset(gone, 0, sizeof(gone));
+    opname = "forsafe_remove";
+    vf_log("list forsafe pass over list %d (%d nodes) through %s, a_list_del_node of the current node at the visits in mask %#x", k, cnt, lr_name[form], mask);
+#define LR_BODY(form_, itv)                        \
+    {                                              \
+        LW_STEP(form_, itv, k, rev)                \
+        if (mask >> (n - 1) & 1u)                  \
+        {                                          \
+            a_list_del_node(itv);                  \
+            a_list_init(itv);                      \
+            gone[rev ? cnt - n : n - 1] = 1;       \
+        }                                          \
+    }
+    switch (form)
+    {
+    case 0: a_list_forsafe_next(p, q, h) LR_BODY("a_list_forsafe_next", p) VF_COUNT("form-removal/a_list_forsafe_next"); break;
+    case 1: a_list_forsafe_prev(p, q, h) LR_BODY("a_list_forsafe_prev", p) VF_COUNT("form-removal/a_list_forsafe_prev"); break;
+    case 2: A_LIST_FORSAFE_NEXT(it, at, h) LR_BODY("A_LIST_FORSAFE_NEXT", it) VF_COUNT("form-removal/A_LIST_FORSAFE_NEXT"); break;
+    case 3: A_LIST_FORSAFE_PREV(it, at, h) LR_BODY("A_LIST_FORSAFE_PREV", it) VF_COUNT("form-removal/A_LIST_FORSAFE_PREV"); break;
+    case 4: a_list_forsafe_(p, q, h, next) LR_BODY("a_list_forsafe_", p) VF_COUNT("form-removal/a_list_forsafe_"); break;
+    case 5: a_list_forsafe_(p, q, h, prev) LR_BODY("a_list_forsafe_", p) VF_COUNT("form-removal/a_list_forsafe_"); break;
+    case 6: A_LIST_FORSAFE_(it, at, h, next) LR_BODY("A_LIST_FORSAFE_", it) VF_COUNT("form-removal/A_LIST_FORSAFE_"); break;
+    default: A_LIST_FORSAFE_(it, at, h, prev) LR_BODY("A_LIST_FORSAFE_", it) VF_COUNT("form-removal/A_LIST_FORSAFE_"); break;
+    }
+    if (ok && n != cnt) { XFAIL("count", lr_name[form], "list %d: %d of %d nodes visited while removing", k, n, cnt); }
+    for (int j = cnt - 1; j >= 0; --j)
+    {
+        if (gone[j]) { lm_remove(k, j); }
+    }
+    cell3(opname, emp((size_t)cnt), form, LMn[k] == 0 ? 0 : LMn[k] == cnt ? 2 : 1);
+    return ok;
+}
+
+/* ------------------------------------------------------------------ list.h: structures built by hand from the primitives */
+typedef struct
+{
+    int id;
+    a_list n; /* NOT the first member */
+} enode;
+#define EN 12
+static enode *EE[EN];
+static a_list *EH;
+static int EM[EN + 1], EMn, Efree[EN], Enfree;
+
+static int e_id_of(a_list const *p)
+{
+    for (int i = 0; i < EN; ++i)
+    {
+        if (&EE[i]->n == p) { return i; }
+    }
+    return -1;
+}
+static void e_poison(a_list *p) { p->next = p->prev = &x_poison; }
+static a_list *e_member(int pos) { return pos < 0 || pos >= EMn ? EH : &EE[EM[pos]]->n; }
+static void em_insert(int pos, int id)
+{
+    memmove(&EM[pos + 1], &EM[pos], (size_t)(EMn - pos) * sizeof(int));
+    EM[pos] = id;
+    ++EMn;
+}
+static void em_remove(int pos)
+{
+    memmove(&EM[pos], &EM[pos + 1], (size_t)(EMn - pos - 1) * sizeof(int));
+    --EMn;
+}
+/* the hand-built ring EH must be exactly EM, both directions, links mutually consistent, entry forms exact */
+static int e_ring_check(char const *form)
+{
+    int ok = 1, n = 0;
+    a_list *it;
+    for (it = EH->next; it != EH; it = it->next)
+    {
+        int id = e_id_of(it);
+        if (id < 0) { XFAIL("foreign-node-in-ring", form, "forward step %d reaches %p, neither a node nor the head", n, (void *)it); return 0; }
+        if (n >= EMn) { XFAIL("forward-walk-longer-than-model", form, "more than %d nodes", EMn); return 0; }
+        if (id != EM[n]) { XFAIL("forward-sequence", form, "position %d: node %d, model %d", n, id, EM[n]); return 0; }
+        if (it->next->prev != it || it->prev->next != it) { XFAIL("links-inconsistent", form, "node %d at %d", id, n); return 0; }
+        ++n;
+    }
+    if (n != EMn) { XFAIL("forward-walk-shorter-than-model", form, "%d nodes, model %d", n, EMn); return 0; }
+    if (EH->next->prev != EH || EH->prev->next != EH) { XFAIL("head-links-inconsistent", form, "head"); return 0; }
+    n = 0;
+    for (it = EH->prev; it != EH; it = it->prev)
+    {
+        int id = e_id_of(it);
+        if (id < 0 || n >= EMn || id != EM[EMn - 1 - n]) { XFAIL("backward-sequence", form, "backward position %d", n); return 0; }
+        ++n;
+    }
+    if (n != EMn) { XFAIL("backward-walk-length", form, "%d nodes backward, model %d", n, EMn); return 0; }
+    for (int pos = -1; pos < EMn; ++pos)
+    {
+        a_list *mb = e_member(pos);
+        if (pos >= 0)
+        {
+            enode *e = a_list_entry(mb, enode, n);
+            VF_COUNT("form/a_list_entry");
+            if (e != EE[EM[pos]] || e->id != EM[pos]) { XFAIL("entry", "a_list_entry", "position %d: %p is not the enclosing struct of node %d", pos, (void *)e, EM[pos]); return 0; }
+        }
+        if (pos + 1 < EMn)
+        {
+            enode *e = a_list_entry_next(mb, enode, n);
+            VF_COUNT("form/a_list_entry_next");
+            if (e != EE[EM[pos + 1]] || e->id != EM[pos + 1]) { XFAIL("entry", "a_list_entry_next", "ring position %d", pos); return 0; }
+        }
+        if (pos > 0 || (pos < 0 && EMn))
+        {
+            int pv = pos > 0 ? EM[pos - 1] : EM[EMn - 1];
+            enode *e = a_list_entry_prev(mb, enode, n);
+            VF_COUNT("form/a_list_entry_prev");
+            if (e != EE[pv] || e->id != pv) { XFAIL("entry", "a_list_entry_prev", "ring position %d", pos); return 0; }
+        }
+    }
+    return ok;
+}
+/* take cn (<= 3) free nodes and link them into an open chain with a_list_link (outer links stay poisoned) */
+static int e_chain(int *chain, int want)
+{
+    int cn = 0;
+    while (cn < want && Enfree)
+    {
+        int j = (int)vf_below(&XR, (uint64_t)Enfree);
+        chain[cn++] = Efree[j];
+        Efree[j] = Efree[--Enfree];
+    }
+    for (int j = 0; j + 1 < cn; ++j) { a_list_link(&EE[chain[j]]->n, &EE[chain[j + 1]]->n); }
+    return cn;
+}
+static void e_release(int id)
+{
+    e_poison(&EE[id]->n);
+    Efree[Enfree++] = id;
+}
+
+static int list_prims(void)
+{
+    int ok = 1, m;
+    opname = "prims";
+    ++vf.evals;
+    for (int i = 0; i < EN; ++i)
+    {
+        EE[i] = (enode *)malloc(sizeof(enode));
+        EE[i]->id = i;
+        e_poison(&EE[i]->n);
+    }
+    EH = (a_list *)malloc(sizeof(a_list));
+    EMn = 0;
+    Enfree = 0;
+    /* initialiser form: static object, block-scope object */
+    {
+        a_list tmp = A_LIST_INIT(*EH);
+        *EH = tmp;
+        VF_COUNT("form/A_LIST_INIT");
+        if (EH->next != EH || EH->prev != EH) { XFAIL("not-an-empty-ring", "A_LIST_INIT", "block-scope initialiser: next %p prev %p, object %p", (void *)EH->next, (void *)EH->prev, (void *)EH); }
+        if (x_poison.next != &x_poison || x_poison.prev != &x_poison) { XFAIL("not-an-empty-ring", "A_LIST_INIT", "static initialiser (or a library call wrote to a foreign object)"); }
+    }
+    /* ctor / init / dtor turn any block into an empty ring */
+    for (int v = 0; v < 3 && ok; ++v)
+    {
+        static char const *const nm[3] = {"a_list_ctor", "a_list_init", "a_list_dtor"};
+        a_list *p = v == 2 ? &EE[vf_below(&XR, EN)]->n : EH;
+        e_poison(p);
+        vf_log("list prims: %s on a block whose links point elsewhere", nm[v]);
+        if (v == 0) { a_list_ctor(p); VF_COUNT("form/a_list_ctor"); }
+        else if (v == 1) { a_list_init(p); VF_COUNT("form/a_list_init"); }
+        else { a_list_dtor(p); VF_COUNT("form/a_list_dtor"); }
+        if (p->next != p || p->prev != p) { XFAIL("not-an-empty-ring", nm[v], "next %p prev %p, object %p", (void *)p->next, (void *)p->prev, (void *)p); }
+        if (v == 2) { e_poison(p); }
+    }
+    /* a ring of m nodes: open chain by a_list_link, closed on the head by a_list_link(head, first) + a_list_loop(head, last) */
+    m = (int)vf_below(&XR, EN - 4);
+    e_poison(EH);
+    vf_log("list prims: ring of %d nodes from a_list_link (chain, head->first) and a_list_loop(head, last)", m);
+    for (int i = 0; i < m; ++i) { EM[EMn++] = i; }
+    for (int i = m; i < EN; ++i) { Efree[Enfree++] = i; }
+    for (int i = 0; i + 1 < m; ++i) { a_list_link(&EE[i]->n, &EE[i + 1]->n); }
+    if (m) { a_list_link(EH, &EE[0]->n); }
+    else { a_list_link(EH, EH); }
+    a_list_loop(EH, m ? &EE[m - 1]->n : EH);
+    VF_COUNT("form/a_list_link");
+    VF_COUNT("form/a_list_loop");
+    if (ok) { ok = e_ring_check("a_list_loop"); }
+    cell3("prims-build", emp((size_t)m), 0, 0);
+    for (int step = 0; step < 8 && ok; ++step)
+    {
+        int chain[3], cn, a, b, pos;
+        switch ((int)vf_below(&XR, 4))
+        {
+        case 0: /* a_list_add_(head1, tail1, head2, tail2): the chain head2..tail2 goes between tail1 and head1 */
+            cn = e_chain(chain, 1 + (int)vf_below(&XR, 3));
+            if (!cn) { break; }
+            pos = (int)vf_below(&XR, (uint64_t)EMn + 1) - 1;
+            vf_log("list prims: a_list_add_ of a hand-linked chain of %d nodes between ring position %d and its successor (%d nodes)", cn, pos, EMn);
+            a_list_add_(e_member(pos + 1), e_member(pos), &EE[chain[0]]->n, &EE[chain[cn - 1]]->n);
+            for (int j = 0; j < cn; ++j) { em_insert(pos + 1 + j, chain[j]); }
+            VF_COUNT("form/a_list_add_");
+            ok = e_ring_check("a_list_add_");
+            cell3("prims-add_", emp((size_t)EMn - (size_t)cn), cn, pos < 0);
+            break;
+        case 1: /* a_list_del_(head, tail) detaches a section; a_list_loop(head, tail) closes the section into a ring of its own */
+            if (!EMn) { break; }
+            a = (int)vf_below(&XR, (uint64_t)EMn);
+            b = a + (int)vf_below(&XR, (uint64_t)(EMn - a));
+            vf_log("list prims: a_list_del_ of section [%d..%d] of %d nodes, section closed with a_list_loop(first, last)", a, b, EMn);
+            {
+                int sec[EN], sn = b - a + 1, n = 0;
+                a_list *first = &EE[EM[a]]->n, *last = &EE[EM[b]]->n, *it;
+                memcpy(sec, &EM[a], (size_t)sn * sizeof(int));
+                a_list_del_(first, last);
+                for (int j = b; j >= a; --j) { em_remove(j); }
+                VF_COUNT("form/a_list_del_");
+                ok = e_ring_check("a_list_del_");
+                if (!ok) { break; }
+                first->prev = &x_poison;
+                last->next = &x_poison;
+                a_list_loop(first, last);
+                VF_COUNT("form/a_list_loop");
+                it = first;
+                do {
+                    if (n >= sn || e_id_of(it) != sec[n]) { XFAIL("section-ring-forward", "a_list_loop", "headless ring of %d nodes, step %d", sn, n); break; }
+                    if (it->next->prev != it || it->prev->next != it) { XFAIL("section-ring-links", "a_list_loop", "headless ring of %d nodes, step %d", sn, n); break; }
+                    ++n;
+                    it = it->next;
+                } while (it != first);
+                if (ok && n != sn) { XFAIL("section-ring-length", "a_list_loop", "%d of %d nodes", n, sn); }
+                for (int j = 0; j < sn; ++j) { e_release(sec[j]); }
+                cell3("prims-del_", emp((size_t)EMn + (size_t)sn), sn > 1, 0);
+            }
+            break;
+        case 2: /* a_list_set_(head1, tail1, head2, tail2): the chain takes the place of the section */
+            if (!EMn) { break; }
+            cn = e_chain(chain, 1 + (int)vf_below(&XR, 3));
+            if (!cn) { break; }
+            a = (int)vf_below(&XR, (uint64_t)EMn);
+            b = a + (int)vf_below(&XR, (uint64_t)(EMn - a));
+            vf_log("list prims: a_list_set_ section [%d..%d] of %d nodes replaced by a hand-linked chain of %d", a, b, EMn, cn);
+            {
+                int sec[EN], sn = b - a + 1;
+                memcpy(sec, &EM[a], (size_t)sn * sizeof(int));
+                a_list_set_(&EE[EM[a]]->n, &EE[EM[b]]->n, &EE[chain[0]]->n, &EE[chain[cn - 1]]->n);
+                for (int j = b; j >= a; --j) { em_remove(j); }
+                for (int j = 0; j < cn; ++j) { em_insert(a + j, chain[j]); }
+                for (int j = 0; j < sn; ++j) { e_release(sec[j]); }
+                VF_COUNT("form/a_list_set_");
+                ok = e_ring_check("a_list_set_");
+                cell3("prims-set_", emp((size_t)EMn), sn > 1, cn);
+            }
+            break;
+        default: /* the head moves to between positions j-1 and j: link(last, first), link(head, node j), loop(head, node j-1) */
+            if (EMn < 2) { break; }
+            a = 1 + (int)vf_below(&XR, (uint64_t)EMn - 1);
+            vf_log("list prims: head of a ring of %d nodes moved in front of position %d by a_list_link x2 + a_list_loop", EMn, a);
+            {
+                int old[EN], on = EMn;
+                memcpy(old, EM, (size_t)on * sizeof(int));
+                a_list_link(&EE[old[on - 1]]->n, &EE[old[0]]->n);
+                a_list_link(EH, &EE[old[a]]->n);
+                a_list_loop(EH, &EE[old[a - 1]]->n);
+                for (int j = 0; j < on; ++j) { EM[j] = old[(a + j) % on]; }
+                VF_COUNT("form/a_list_link");
+                VF_COUNT("form/a_list_loop");
+                ok = e_ring_check("a_list_loop");
+                cell3("prims-rehead", emp((size_t)on), 0, 0);
+            }
+            break;
+        }
+    }
+    if (ok)
+    {
+        /* ctor / init / dtor on the USED head, then the head takes nodes again */
+        static char const *const nm[3] = {"a_list_ctor", "a_list_init", "a_list_dtor"};
+        int v = (int)vf_below(&XR, 3), cnt = 1 + (int)vf_below(&XR, 3);
+        vf_log("list prims: %s on the head of the ring of %d nodes, then %d nodes added", nm[v], EMn, cnt);
+        if (v == 0) { a_list_ctor(EH); }
+        else if (v == 1) { a_list_init(EH); }
+        else { a_list_dtor(EH); }
+        while (EMn) { e_release(EM[--EMn]); }
+        ok = e_ring_check(nm[v]);
+        for (int j = 0; j < cnt && ok && Enfree; ++j)
+        {
+            int id = Efree[--Enfree];
+            if (vf_chance(&XR, 1, 2)) { a_list_add_prev(EH, &EE[id]->n); em_insert(EMn, id); }
+            else { a_list_add_next(EH, &EE[id]->n); em_insert(0, id); }
+            ok = e_ring_check(nm[v]);
+        }
+    }
+    if (x_poison.next != &x_poison || x_poison.prev != &x_poison)
+    {
+        XFAIL("foreign-object-written", "prims", "a primitive wrote through a link it should have replaced");
+        x_poison.next = x_poison.prev = &x_poison;
+    }
+    for (int i = 0; i < EN; ++i) { free(EE[i]); }
+    free(EH);
+    return ok;
+}
+
+static int list_coda(void)
+{
+    int alive = list_forms(), passes = 8 + (int)vf_below(&XR, 5);
+    for (int i = 0; i < passes && alive; ++i)
+    {
+        int k = (int)vf_below(&XR, 2), form = (int)vf_below(&XR, 8), id;
+        if (vf_chance(&XR, 1, 3))
+        {
+            /* ctor / init / dtor on a USED head: its nodes are abandoned, the head must be an empty ring that takes nodes again */
+            int v = (int)vf_below(&XR, 3);
+            opname = v == 0 ? "ctor" : v == 1 ? "init" : "dtor";
+            vf_log("list a_list_%s(head of list %d holding %d nodes), nodes abandoned, head re-used", opname, k, LMn[k]);
+            if (v == 0) { a_list_ctor(LH[k]); }
+            else if (v == 1) { a_list_init(LH[k]); }
+            else { a_list_dtor(LH[k]); }
+            cell3(opname, emp((size_t)LMn[k]), 0, 0);
+            while (LMn[k])
+            {
+                a_list_init(&LN[LM[k][LMn[k] - 1]]->n);
+                lm_remove(k, LMn[k] - 1);
+            }
+            VF_COUNT("list-used-head-reset-and-reused");
+            alive = list_check();
+            if (!alive) { break; }
+        }
+        /* refill list k from the detached nodes so that the pass has something to remove */
+        while ((id = pick_detached(&XR)) >= 0 && vf_chance(&XR, 5, 6))
+        {
+            int pos = (int)vf_below(&XR, (uint64_t)LMn[k] + 1) - 1;
+            if (vf_chance(&XR, 1, 2))
+            {
+                opname = "add_next";
+                vf_log("list add_next(ctx ring position %d of list %d, node %d)", pos, k, id);
+                a_list_add_next(ring_member(k, pos), &LN[id]->n);
+                lm_insert(k, pos + 1, id);
+            }
+            else
+            {
+                opname = "add_prev";
+                vf_log("list add_prev(ctx ring position %d of list %d, node %d)", pos, k, id);
+                a_list_add_prev(ring_member(k, pos), &LN[id]->n);
+                lm_insert(k, pos < 0 ? LMn[k] : pos, id);
+            }
+        }
+        alive = list_check();
+        if (!alive) { break; }
+        ++vf.evals;
+        alive = list_forsafe_remove(k, form);
+        if (!list_check()) { alive = 0; }
+        if (alive) { alive = list_forms(); }
+    }
+    for (int i = 0; i < 2 && alive; ++i) { alive = list_prims(); }
+    return alive;
+}
+
+/* ------------------------------------------------------------------ slist.h: observation forms */
+__attribute__((noinline)) static int sw_step(char const *form, a_slist_node const *it, int k, int *n)
+{
+    int ok = 1, id = s_id_of((a_slist_node *)it), want;
+    if (*n >= SMn[k]) { XFAIL("walk-longer-than-model", form, "slist %d: more than %d nodes visited", k, SMn[k]); return 0; }
+    want = SM[k][*n];
+    if (id != want) { XFAIL("sequence", form, "slist %d visit %d: node %d, model %d", k, *n, id, want); return 0; }
+    ++*n;
+    return ok;
+}
+__attribute__((noinline)) static int sw_end(char const *form, int k, int n)
+{
+    int ok = 1;
+    if (n != SMn[k]) { XFAIL("count", form, "slist %d: visited %d of %d nodes", k, n, SMn[k]); }
+    return ok;
+}
+#define SW_STEP(form, itv, k) \
+    {                         \
+        if (!sw_step(form, itv, k, &n)) { ok = 0; break; } \
+    }
+#define SW_END(form, k) \
+    if (ok) { ok = sw_end(form, k, n); }
+__attribute__((noinline)) static void sf_count(void)
+{
+    VF_ADD("form/a_slist_foreach", 2);
+    VF_ADD("form/A_SLIST_FOREACH", 2);
+    VF_COUNT("form/a_slist_forsafe");
+    VF_ADD("form/A_SLIST_FORSAFE", 2);
+}
+
+static int slist_forms(void)
+{
+    int ok = 1, n;
+    char const *op_ = opname;
+    opname = "forms";
+    for (int k = 0; k < 2 && ok; ++k)
+    {
+        a_slist *l = SL[k];
+        a_slist const *cl = SL[k];
+        a_slist_node *it, *at;
+        a_slist_node const *cit, *cat;
+        sf_count();
+        n = 0; a_slist_foreach(p, l) SW_STEP("a_slist_foreach", p, k) SW_END("a_slist_foreach", k)
+        n = 0; a_slist_foreach(p, cl) SW_STEP("a_slist_foreach", p, k) SW_END("a_slist_foreach", k)
+        n = 0; A_SLIST_FOREACH(it, l) SW_STEP("A_SLIST_FOREACH", it, k) SW_END("A_SLIST_FOREACH", k)
+        n = 0; A_SLIST_FOREACH(cit, cl) SW_STEP("A_SLIST_FOREACH", cit, k) SW_END("A_SLIST_FOREACH", k)
+        n = 0; a_slist_forsafe(p, q, l) SW_STEP("a_slist_forsafe", p, k) SW_END("a_slist_forsafe", k)
+        n = 0; A_SLIST_FORSAFE(it, at, l) SW_STEP("A_SLIST_FORSAFE", it, k) SW_END("A_SLIST_FORSAFE", k)
+        n = 0; A_SLIST_FORSAFE(cit, cat, cl) SW_STEP("A_SLIST_FORSAFE", cit, k) SW_END("A_SLIST_FORSAFE", k)
+        for (int pos = -1; pos < SMn[k] && ok; ++pos)
+        {
+            a_slist_node *mb = s_member(k, pos);
+            if (pos >= 0)
+            {
+                snode *e = a_slist_entry(mb, snode, n);
+                snode const *ce = a_slist_entry((a_slist_node const *)mb, snode const, n);
+                VF_COUNT("form/a_slist_entry");
+                if (e != SN[SM[k][pos]] || ce != e || e->id != SM[k][pos]) { XFAIL("entry", "a_slist_entry", "slist %d position %d: %p is not node %d", k, pos, (void *)e, SM[k][pos]); }
+                VF_COUNT("form/a_slist_");
+                if (a_slist_(*, e) != mb || a_slist_(const *, ce) != mb) { XFAIL("cast", "a_slist_", "slist %d position %d", k, pos); }
+            }
+            if (pos + 1 < SMn[k])
+            {
+                snode *e = a_slist_entry_next(mb, snode, n);
+                VF_COUNT("form/a_slist_entry_next");
+                if (e != SN[SM[k][pos + 1]]) { XFAIL("entry", "a_slist_entry_next", "slist %d position %d: %p is not node %d", k, pos, (void *)e, SM[k][pos + 1]); }
+            }
+        }
+    }
+    opname = op_;
+    return ok;
+}
+
+/* ------------------------------------------------------------------ slist.h: removal inside the forsafe forms
+ * Documented use (and test/slist.h): `at` is the predecessor of the current node; the body calls a_slist_del(ctx, at) and
+ * sets `it` to null, the form then continues with the new successor of `at`. */
+static int slist_forsafe_remove(int k, int form)
+{
+    static char const *const nm[2] = {"a_slist_forsafe", "A_SLIST_FORSAFE"};
+    int ok = 1, n = 0, cnt = SMn[k], gone[NN + 2];
+    uint32_t mask;
+    a_slist *l = SL[k];
+    a_slist_node *it, *at;
+    switch ((int)vf_below(&XR, 4))
+    {
+    case 0: mask = ~0u; break;
+    case 1: mask = (uint32_t)vf_u64(&XR); break;
+    case 2: mask = (uint32_t)(vf_u64(&XR) & vf_u64(&XR)); break;
+    default: mask = 1u | (cnt ? 1u << (cnt - 1) : 0u); break;
+    }
+    memset(gone, 0, sizeof(gone));
+    opname = "forsafe_remove";
+    vf_log("slist forsafe pass over list %d (%d nodes) through %s, a_slist_del(list, at) + it = null at the visits in mask %#x", k, cnt, nm[form], mask);
+#define SR_BODY(form_, itv, atv)                   \
+    {                                              \
+        SW_STEP(form_, itv, k)                     \
+        if (mask >> (n - 1) & 1u)                  \
+        {                                          \
+            a_slist_del(l, atv);                   \
+            (itv)->next = &x_spoison;              \
+            gone[n - 1] = 1;                       \
+            itv = NULL;                            \
+        }                                          \
+    }
+    if (form == 0) { a_slist_forsafe(p, q, l) SR_BODY("a_slist_forsafe", p, q) VF_COUNT("form-removal/a_slist_forsafe"); }
+    else { A_SLIST_FORSAFE(it, at, l) SR_BODY("A_SLIST_FORSAFE", it, at) VF_COUNT("form-removal/A_SLIST_FORSAFE"); }
+    if (ok && n != cnt) { XFAIL("count", nm[form], "slist %d: %d of %d nodes visited while removing", k, n, cnt); }
+    for (int j = cnt - 1; j >= 0; --j)
+    {
+        if (gone[j])
+        {
+            SN[SM[k][j]]->n.next = NULL;
+            sm_remove(k, j);
+        }
+    }
+    if (x_spoison.next) { XFAIL("foreign-object-written", nm[form], "the pass wrote to a removed node's successor"); x_spoison.next = NULL; }
+    cell3(opname, emp((size_t)cnt), form, SMn[k] == 0 ? 0 : SMn[k] == cnt ? 2 : 1);
+    return ok;
+}
+
+/* ------------------------------------------------------------------ slist.h: structures built by hand from the primitives */
+typedef struct
+{
+    int id;
+    a_slist_node n; /* NOT the first member */
+} esnode;
+static esnode *ES[EN];
+static a_slist *EL;
+static int ESM[EN + 1], ESMn;
+
+static int es_check(char const *form)
+{
+    int ok = 1, n = 0;
+    a_slist_node *it, *last = &EL->head;
+    for (it = EL->head.next; it; it = it->next)
+    {
+        int id = -1;
+        for (int i = 0; i < EN; ++i)
+        {
+            if (&ES[i]->n == it) { id = i; }
+        }
+        if (id < 0) { XFAIL("foreign-node", form, "step %d reaches %p", n, (void *)it); return 0; }
+        if (n >= ESMn) { XFAIL("walk-longer-than-model", form, "more than %d nodes", ESMn); return 0; }
+        if (id != ESM[n]) { XFAIL("sequence", form, "position %d: node %d, model %d", n, id, ESM[n]); return 0; }
+        VF_COUNT("form/a_slist_entry");
+        if (a_slist_entry(it, esnode, n) != ES[id] || a_slist_entry(it, esnode, n)->id != id) { XFAIL("entry", "a_slist_entry", "position %d", n); return 0; }
+        VF_COUNT("form/a_slist_entry_next");
+        if (a_slist_entry_next(last, esnode, n) != ES[id]) { XFAIL("entry", "a_slist_entry_next", "successor of position %d", n - 1); return 0; }
+        last = it;
+        ++n;
+    }
+    if (n != ESMn) { XFAIL("walk-shorter-than-model", form, "%d nodes, model %d", n, ESMn); return 0; }
+    if (EL->tail != last) { XFAIL("tail-not-last-node", form, "tail %p, last node %p (%d nodes)", (void *)EL->tail, (void *)last, n); return 0; }
+    return ok;
+}
+
+static int slist_prims(void)
+{
+    int ok = 1, m;
+    opname = "prims";
+    ++vf.evals;
+    for (int i = 0; i < EN; ++i)
+    {
+        ES[i] = (esnode *)malloc(sizeof(esnode));
+        ES[i]->id = i;
+        ES[i]->n.next = &x_spoison;
+    }
+    EL = (a_slist *)malloc(sizeof(a_slist));
+    ESMn = 0;
+    /* initialiser forms */
+    {
+        a_slist tmp = A_SLIST_INIT(*EL);
+        a_slist_node nd = A_SLIST_NODE;
+        *EL = tmp;
+        VF_COUNT("form/A_SLIST_INIT");
+        if (EL->head.next || EL->tail != &EL->head) { XFAIL("not-an-empty-list", "A_SLIST_INIT", "block-scope initialiser: head.next %p tail %p, head %p", (void *)EL->head.next, (void *)EL->tail, (void *)&EL->head); }
+        if (x_static_slist.head.next || x_static_slist.tail != &x_static_slist.head) { XFAIL("not-an-empty-list", "A_SLIST_INIT", "static initialiser"); }
+        VF_COUNT("form/A_SLIST_NODE");
+        if (nd.next || x_spoison.next) { XFAIL("not-a-detached-node", "A_SLIST_NODE", "next %p / %p", (void *)nd.next, (void *)x_spoison.next); x_spoison.next = NULL; }
+    }
+    for (int v = 0; v < 3 && ok; ++v)
+    {
+        static char const *const nm[3] = {"a_slist_ctor", "a_slist_init", "a_slist_dtor"};
+        EL->head.next = &x_spoison;
+        EL->tail = &x_spoison;
+        vf_log("slist prims: %s on a block whose fields point elsewhere", nm[v]);
+        if (v == 0) { a_slist_ctor(EL); VF_COUNT("form/a_slist_ctor"); }
+        else if (v == 1) { a_slist_init(EL); VF_COUNT("form/a_slist_init"); }
+        else { a_slist_dtor(EL); VF_COUNT("form/a_slist_dtor"); }
+        if (EL->head.next || EL->tail != &EL->head) { XFAIL("not-an-empty-list", nm[v], "head.next %p tail %p, head %p", (void *)EL->head.next, (void *)EL->tail, (void *)&EL->head); }
+    }
+    /* a list of m >= 1 nodes linked by hand: a_slist_link along the chain, null after the last node, tail set by the caller */
+    m = 1 + (int)vf_below(&XR, EN - 3);
+    vf_log("slist prims: list of %d nodes from a_slist_link only", m);
+    a_slist_link(&EL->head, &ES[0]->n);
+    for (int i = 0; i + 1 < m; ++i) { a_slist_link(&ES[i]->n, &ES[i + 1]->n); }
+    a_slist_link(&ES[m - 1]->n, A_NULL);
+    EL->tail = &ES[m - 1]->n;
+    for (int i = 0; i < m; ++i) { ESM[ESMn++] = i; }
+    VF_COUNT("form/a_slist_link");
+    if (ok) { ok = es_check("a_slist_link"); }
+    cell3("prims-build", emp((size_t)m), 0, 0);
+    for (int step = 0; step < 6 && ok; ++step)
+    {
+        int pos, id;
+        switch ((int)vf_below(&XR, 5))
+        {
+        case 0: /* insertion after position pos by two a_slist_link calls */
+            if (ESMn >= EN) { break; }
+            for (id = 0; id < EN && ES[id]->n.next != &x_spoison; ++id) {}
+            if (id == EN) { break; }
+            pos = (int)vf_below(&XR, (uint64_t)ESMn + 1) - 1;
+            vf_log("slist prims: node %d linked in after position %d of %d by a_slist_link x2", id, pos, ESMn);
+            {
+                a_slist_node *prev = pos < 0 ? &EL->head : &ES[ESM[pos]]->n;
+                a_slist_link(&ES[id]->n, prev->next);
+                a_slist_link(prev, &ES[id]->n);
+                if (pos + 1 == ESMn) { EL->tail = &ES[id]->n; }
+            }
+            memmove(&ESM[pos + 2], &ESM[pos + 1], (size_t)(ESMn - pos - 1) * sizeof(int));
+            ESM[pos + 1] = id;
+            ++ESMn;
+            VF_COUNT("form/a_slist_link");
+            ok = es_check("a_slist_link");
+            cell3("prims-link-in", emp((size_t)ESMn - 1), pos < 0, pos + 2 == ESMn);
+            break;
+        case 1: /* removal of the node after position pos by one a_slist_link call */
+            if (ESMn < 1) { break; }
+            pos = (int)vf_below(&XR, (uint64_t)ESMn) - 1;
+            vf_log("slist prims: node after position %d of %d unlinked by a_slist_link", pos, ESMn);
+            {
+                a_slist_node *prev = pos < 0 ? &EL->head : &ES[ESM[pos]]->n, *gone = prev->next;
+                a_slist_link(prev, gone->next);
+                if (!gone->next) { EL->tail = prev; }
+                gone->next = &x_spoison;
+            }
+            memmove(&ESM[pos + 1], &ESM[pos + 2], (size_t)(ESMn - pos - 2) * sizeof(int));
+            --ESMn;
+            VF_COUNT("form/a_slist_link");
+            ok = es_check("a_slist_link");
+            cell3("prims-link-out", emp((size_t)ESMn + 1), pos < 0, pos + 1 == ESMn);
+            break;
+        case 2: /* the library accepts the hand-built list: rotation */
+            vf_log("slist prims: a_slist_rot on the hand-built list of %d", ESMn);
+            a_slist_rot(EL);
+            if (ESMn > 1)
+            {
+                int first = ESM[0];
+                memmove(&ESM[0], &ESM[1], (size_t)(ESMn - 1) * sizeof(int));
+                ESM[ESMn - 1] = first;
+            }
+            ok = es_check("a_slist_rot");
+            break;
+        case 3:
+            vf_log("slist prims: a_slist_del_head on the hand-built list of %d", ESMn);
+            a_slist_del_head(EL);
+            if (ESMn)
+            {
+                ES[ESM[0]]->n.next = &x_spoison;
+                memmove(&ESM[0], &ESM[1], (size_t)(ESMn - 1) * sizeof(int));
+                --ESMn;
+            }
+            ok = es_check("a_slist_del_head");
+            break;
+        default:
+            if (ESMn >= EN) { break; }
+            for (id = 0; id < EN && ES[id]->n.next != &x_spoison; ++id) {}
+            if (id == EN) { break; }
+            vf_log("slist prims: a_slist_add_tail(node %d) on the hand-built list of %d", id, ESMn);
+            a_slist_add_tail(EL, &ES[id]->n);
+            ESM[ESMn++] = id;
+            ok = es_check("a_slist_add_tail");
+            break;
+        }
+    }
+    if (ok)
+    {
+        static char const *const nm[3] = {"a_slist_ctor", "a_slist_init", "a_slist_dtor"};
+        int v = (int)vf_below(&XR, 3), cnt = 1 + (int)vf_below(&XR, 3);
+        vf_log("slist prims: %s on the list of %d nodes, then %d nodes added at the tail", nm[v], ESMn, cnt);
+        if (v == 0) { a_slist_ctor(EL); }
+        else if (v == 1) { a_slist_init(EL); }
+        else { a_slist_dtor(EL); }
+        while (ESMn) { ES[ESM[--ESMn]]->n.next = &x_spoison; }
+        ok = es_check(nm[v]);
+        for (int j = 0; j < cnt && ok; ++j)
+        {
+            a_slist_add_tail(EL, &ES[j]->n);
+            ESM[ESMn++] = j;
+            ok = es_check(nm[v]);
+        }
+    }
+    if (x_spoison.next) { XFAIL("foreign-object-written", "prims", "a primitive wrote through a link it should have replaced"); x_spoison.next = NULL; }
+    for (int i = 0; i < EN; ++i) { free(ES[i]); }
+    free(EL);
+    return ok;
+}
+
+static int slist_coda(void)
+{
+    int alive = slist_forms(), passes = 3 + (int)vf_below(&XR, 3);
+    for (int i = 0; i < passes && alive; ++i)
+    {
+        int k = (int)vf_below(&XR, 2), form = (int)vf_below(&XR, 2), id;
+        if (vf_chance(&XR, 1, 2))
+        {
+            /* ctor / init / dtor on a USED list: its nodes are abandoned, the list must be empty and take nodes again */
+            int v = (int)vf_below(&XR, 3);
+            opname = v == 0 ? "ctor" : v == 1 ? "init" : "dtor";
+            vf_log("slist a_slist_%s(list %d holding %d nodes), nodes abandoned, list re-used", opname, k, SMn[k]);
+            if (v == 0) { a_slist_ctor(SL[k]); }
+            else if (v == 1) { a_slist_init(SL[k]); }
+            else { a_slist_dtor(SL[k]); }
+            cell3(opname, emp((size_t)SMn[k]), 0, 0);
+            while (SMn[k])
+            {
+                SN[SM[k][SMn[k] - 1]]->n.next = NULL;
+                sm_remove(k, SMn[k] - 1);
+            }
+            VF_COUNT("slist-used-list-reset-and-reused");
+            alive = slist_check();
+            if (!alive) { break; }
+        }
+        while ((id = s_pick_detached(&XR)) >= 0 && vf_chance(&XR, 5, 6))
+        {
+            int how = (int)vf_below(&XR, 3), pos = (int)vf_below(&XR, (uint64_t)SMn[k] + 1) - 1;
+            if (how == 0)
+            {
+                opname = "add_tail";
+                vf_log("slist add_tail(list %d, node %d)", k, id);
+                a_slist_add_tail(SL[k], &SN[id]->n);
+                sm_insert(k, SMn[k], id);
+            }
+            else if (how == 1)
+            {
+                opname = "add_head";
+                vf_log("slist add_head(list %d, node %d)", k, id);
+                a_slist_add_head(SL[k], &SN[id]->n);
+                sm_insert(k, 0, id);
+            }
+            else
+            {
+                opname = "add";
+                vf_log("slist add(list %d, prev=%s%d, node %d)", k, pos < 0 ? "head" : "position ", pos < 0 ? 0 : pos, id);
+                a_slist_add(SL[k], s_member(k, pos), &SN[id]->n);
+                sm_insert(k, pos + 1, id);
+            }
+            alive = slist_check();
+            if (!alive) { break; }
+        }
+        if (!alive) { break; }
+        alive = slist_check();
+        if (!alive) { break; }
+        ++vf.evals;
+        alive = slist_forsafe_remove(k, form);
+        if (!slist_check()) { alive = 0; }
+        if (alive) { alive = slist_forms(); }
+    }
+    for (int i = 0; i < 2 && alive; ++i) { alive = slist_prims(); }
+    return alive;
+}
+
+/* ------------------------------------------------------------------ que.h: typed accessors and iteration macros */
+typedef struct
+{
+    unsigned char b[QSZ];
+} q24;
+
+__attribute__((noinline)) static int qw_step(char const *form, int k, void const *it, size_t tsz, int rev, size_t *n)
+{
+    int ok = 1;
+    qmodel const *m = &Q[k];
+    size_t at;
+    if (*n >= m->n) { XFAIL("walk-longer-than-model", form, "queue %d: more than %zu elements visited", k, m->n); return 0; }
+    at = rev ? m->n - 1 - *n : *n;
+    if (it != m->addr[at]) { XFAIL("sequence", form, "queue %d visit %zu: element at %p, model element %zu at %p", k, *n, it, at, m->addr[at]); return 0; }
+    if (memcmp(it, m->pay[at], tsz) != 0) { XFAIL("contents", form, "queue %d visit %zu: the first %zu bytes differ from the model", k, *n, tsz); return 0; }
+    ++*n;
+    return ok;
+}
+__attribute__((noinline)) static int qw_end(char const *form, int k, size_t n)
+{
+    int ok = 1;
+    if (n != Q[k].n) { XFAIL("count", form, "queue %d: visited %zu of %zu elements", k, n, Q[k].n); }
+    return ok;
+}
+/* a typed accessor's result e must be element i of queue k (i == SIZE_MAX: null), its first tsz bytes the model's */
+__attribute__((noinline)) static int qa_same(char const *clause, char const *form, char const *tag, int k, void const *e, size_t i, size_t tsz)
+{
+    int ok = 1;
+    qmodel const *m = &Q[k];
+    if (i == SIZE_MAX ? e != NULL : (e != m->addr[i] || memcmp(e, m->pay[i], tsz) != 0))
+    {
+        XFAIL(clause, form, "queue %d (%zu elements) as %s: %p is not element %zd with the model's bytes", k, m->n, tag, e, (ssize_t)i);
+    }
+    return ok;
+}
+/* one evaluation of every typed observation form (QF_TYPED below executes each of them exactly once per call) */
+__attribute__((noinline)) static void qf_count(int nonempty)
+{
+    VF_COUNT("form/A_QUE_FORE");
+    VF_COUNT("form/A_QUE_BACK");
+    VF_COUNT("form/A_QUE_AT");
+    VF_COUNT("form/a_que_foreach");
+    VF_COUNT("form/a_que_foreach_reverse");
+    VF_COUNT("form/A_QUE_FOREACH");
+    VF_COUNT("form/A_QUE_FOREACH_REVERSE");
+    if (nonempty)
+    {
+        VF_COUNT("form/A_QUE_FORE_");
+        VF_COUNT("form/A_QUE_BACK_");
+    }
+}
+#define QW_STEP(form, itv, rev) \
+    {                           \
+        if (!qw_step(form, k, (void const *)(itv), sizeof(*(itv)), rev, &n)) { ok = 0; break; } \
+    }
+#define QW_END(form) \
+    if (ok) { ok = qw_end(form, k, n); }
+#define QA(clause, form, tag, e, i) \
+    if (!qa_same(clause, form, tag, k, (void const *)(e), i, sizeof(*(e)))) { ok = 0; }
+/* every typed form for element type T through the queue handle qh (a_que * or a_que const *) */
+#define QF_TYPED(T, tag, qh)                                                                                             \
+    {                                                                                                                    \
+        T *it, *at, *e_;                                                                                                 \
+        size_t n;                                                                                                        \
+        VF_COUNT("form-instantiation/" tag);                                                                             \
+        qf_count(m->n != 0);                                                                                             \
+        e_ = A_QUE_FORE(T, qh); QA("fore", "A_QUE_FORE", tag, e_, m->n ? 0 : SIZE_MAX)                                   \
+        e_ = A_QUE_BACK(T, qh); QA("back", "A_QUE_BACK", tag, e_, m->n ? m->n - 1 : SIZE_MAX)                            \
+        if (m->n)                                                                                                        \
+        {                                                                                                                \
+            size_t const ix[3] = {0, m->n / 2, m->n - 1};                                                                \
+            e_ = A_QUE_FORE_(T, qh); QA("fore", "A_QUE_FORE_", tag, e_, 0)                                               \
+            e_ = A_QUE_BACK_(T, qh); QA("back", "A_QUE_BACK_", tag, e_, m->n - 1)                                        \
+            for (int j = 0; j < 3; ++j)                                                                                  \
+            {                                                                                                            \
+                e_ = A_QUE_AT(T, qh, (a_diff)ix[j]); QA("at-from-front", "A_QUE_AT", tag, e_, ix[j])                     \
+                e_ = A_QUE_AT(T, qh, -(a_diff)ix[j] - 1); QA("at-from-back", "A_QUE_AT", tag, e_, m->n - 1 - ix[j])      \
+            }                                                                                                            \
+        }                                                                                                                \
+        e_ = A_QUE_AT(T, qh, (a_diff)m->n); QA("at-out-of-range", "A_QUE_AT", tag, e_, SIZE_MAX)                         \
+        e_ = A_QUE_AT(T, qh, -(a_diff)m->n - 1); QA("at-out-of-range", "A_QUE_AT", tag, e_, SIZE_MAX)                    \
+        n = 0; a_que_foreach(T, *, p, qh) QW_STEP("a_que_foreach", p, 0) QW_END("a_que_foreach")                         \
+        n = 0; a_que_foreach_reverse(T, *, p, qh) QW_STEP("a_que_foreach_reverse", p, 1) QW_END("a_que_foreach_reverse") \
+        n = 0; A_QUE_FOREACH(T *, it, at, qh) QW_STEP("A_QUE_FOREACH", it, 0) QW_END("A_QUE_FOREACH")                    \
+        n = 0; A_QUE_FOREACH_REVERSE(T *, it, at, qh) QW_STEP("A_QUE_FOREACH_REVERSE", it, 1) QW_END("A_QUE_FOREACH_REVERSE") \
+    }
+
+static int que_forms(void)
+{
+    int ok = 1;
+    char const *op_ = opname;
+    opname = "forms";
+    for (int k = 0; k < 2 && ok; ++k)
+    {
+        qmodel *m = &Q[k];
+        a_que *q = m->q;
+        a_que const *cq = m->q;
+        if (m->n)
+        {
+            VF_COUNT("form/a_que_fore_");
+            if (a_que_fore_(cq) != m->addr[0]) { XFAIL("fore", "a_que_fore_", "queue %d (%zu elements)", k, m->n); }
+            VF_COUNT("form/a_que_back_");
+            if (a_que_back_(cq) != m->addr[m->n - 1]) { XFAIL("back", "a_que_back_", "queue %d (%zu elements)", k, m->n); }
+        }
+        QF_TYPED(unsigned char, "unsigned-char", q)
+        if (m->siz >= sizeof(uint64_t)) { QF_TYPED(uint64_t const, "uint64_t-const", cq) }
+        if (m->siz == QSZ) { QF_TYPED(q24, "struct-of-24-bytes", q) }
+    }
+    opname = op_;
+    return ok;
+}
+
+/* ------------------------------------------------------------------ que: every entry point on an EMPTY and on a ONE-ELEMENT queue
+ * que_edges(k) needs queue k empty (model and library). It is run on a random half of the cases on the freshly constructed
+ * queues (no node was ever allocated) and at the end of every history after the queue was drained by pulls (all its nodes
+ * are in the recycling pool). On the empty queue: a_que_sort_fore, a_que_sort_back (nothing to do, state unchanged),
+ * a_que_at at 0, +-1, +-2 and the extreme indices, a_que_fore/back (null), a_que_pull_fore/pull_back/remove(0)/remove(SIZE_MAX)
+ * (null, state unchanged), a_que_drop with and without destructor (success, no call), a_que_push_sort (the element becomes
+ * the only one). On the one-element queue: sort_fore/sort_back (unchanged), at(0) == at(-1) == fore == back == the element,
+ * everything else null, push_sort of a key below / equal / above (position judged) and removal of the new element again,
+ * pull_fore / pull_back / remove(0) / remove(1) / remove(SIZE_MAX) each returning the element and emptying the queue
+ * (refilled by push_fore / push_back / insert(0) / insert(SIZE_MAX) in turn), a_que_drop with destructor (exactly one call,
+ * on the element). The complete state comparison (que_check: ring, num, fore/back, at(+-i), bytes, addresses) follows
+ * every call. Keys: "que_<api>/<clause>/empty-queue" and ".../one-element-queue". */
+static int qe_cmp(void)
+{
+    int ok = 1;
+    VF_COUNT("que-comparator-receives-elements-only");
+    if (cmp_foreign) { FAIL("comparator-received-non-element", "%d comparator calls with a pointer that is neither an enqueued element nor the key", cmp_foreign); }
+    return ok && que_check();
+}
+static int qe_null(void *p)
+{
+    int ok = 1;
+    if (p) { FAIL("non-null-from-empty", "returned %p", p); }
+    return ok && que_check();
+}
+static int qe_one(int k, void *p, unsigned char const *el)
+{
+    int ok = 1;
+    qmodel *m = &Q[k];
+    if (!p) { FAIL("unexpected-null", "push returned null"); return 0; }
+    if (q_enqueued(p)) { FAIL("handed-out-node-still-enqueued", "push returned %p which is the address of an enqueued element", p); return 0; }
+    memcpy(p, el, m->siz);
+    qm_insert(m, 0, el, p);
+    return que_check();
+}
+static int qe_gone(int k, void *p)
+{
+    int ok = 1;
+    qmodel *m = &Q[k];
+    if (p != m->addr[0]) { FAIL("wrong-element-returned", "returned %p, the only element lives at %p", p, m->addr[0]); return 0; }
+    if (memcmp(p, m->pay[0], m->siz) != 0) { FAIL("returned-element-not-intact", "payload changed"); return 0; }
+    qm_remove(m, 0);
+    return que_check();
+}
+static int que_edges(int k)
+{
+    static a_diff const far[] = {0, -1, 1, -2, 2, PTRDIFF_MAX, PTRDIFF_MIN};
+    int ok = 1, rc;
+    qmodel *m = &Q[k];
+    a_que *q = m->q;
+    unsigned char el[QSZ], el2[QSZ];
+    void *p;
+    if (m->n) { return 1; }
+    q_siz_cb = m->siz;
+    xform = "empty-queue";
+    VF_COUNT("que-entry-points-on-empty-queue");
+    vf_log("que %d: every entry point on the empty queue (%zu nodes in the pool), then on a one-element queue", k, q->cur_);
+    cell3("edges", q->cur_ == 0 ? 0 : q->cur_ == 1 ? 1 : 2, (int)m->siz, 0);
+    opname = "sort_fore"; vf_log("que %d sort_fore (num 0)", k); cmp_arm(NULL, NULL); a_que_sort_fore(q, q_cmp); if (!qe_cmp()) { return 0; }
+    opname = "sort_back"; vf_log("que %d sort_back (num 0)", k); cmp_arm(NULL, NULL); a_que_sort_back(q, q_cmp); if (!qe_cmp()) { return 0; }
+    opname = "at";
+    for (size_t i = 0; i < sizeof(far) / sizeof(far[0]); ++i)
+    {
+        vf_log("que %d at(%td) (num 0)", k, far[i]);
+        if (a_que_at(q, far[i])) { FAIL("at-out-of-range", "at(%td) on the empty queue is not null", far[i]); return 0; }
+    }
+    opname = "pull_fore"; vf_log("que %d pull_fore (num 0)", k); if (!qe_null(a_que_pull_fore(q))) { return 0; }
+    opname = "pull_back"; vf_log("que %d pull_back (num 0)", k); if (!qe_null(a_que_pull_back(q))) { return 0; }
+    opname = "remove"; vf_log("que %d remove idx=0 (num 0)", k); if (!qe_null(a_que_remove(q, 0))) { return 0; }
+    vf_log("que %d remove idx=SIZE_MAX (num 0)", k); if (!qe_null(a_que_remove(q, SIZE_MAX))) { return 0; }
+    for (int v = 0; v < 2; ++v)
+    {
+        opname = "drop"; vf_log("que %d drop %s destructor (num 0)", k, v ? "with" : "without");
+        dt_begin(k);
+        rc = a_que_drop(q, v ? q_dtor : NULL);
+        if (!dt_end(k, v)) { return 0; }
+        if (rc != A_SUCCESS) { FAIL("unexpected-error", "rc %d", rc); return 0; }
+        if (!que_check()) { return 0; }
+    }
+    q_mk(&XR, m, el, 1 + (int)vf_below(&XR, 254));
+    opname = "push_sort"; vf_log("que %d push_sort key %u (num 0)", k, el[0]);
+    cmp_arm(el, NULL);
+    p = a_que_push_sort(q, el, q_cmp);
+    if (cmp_foreign) { FAIL("comparator-received-non-element", "%d comparator calls although the queue was empty", cmp_foreign); return 0; }
+    if (!qe_one(k, p, el)) { return 0; }
+    /* ---- one element */
+    xform = "one-element-queue";
+    VF_COUNT("que-entry-points-on-one-element-queue");
+    opname = "sort_fore"; vf_log("que %d sort_fore (num 1)", k); cmp_arm(NULL, NULL); a_que_sort_fore(q, q_cmp); if (!qe_cmp()) { return 0; }
+    opname = "sort_back"; vf_log("que %d sort_back (num 1)", k); cmp_arm(NULL, NULL); a_que_sort_back(q, q_cmp); if (!qe_cmp()) { return 0; }
+    opname = "at";
+    for (size_t i = 0; i < sizeof(far) / sizeof(far[0]); ++i)
+    {
+        void *want = far[i] == 0 || far[i] == -1 ? m->addr[0] : NULL;
+        vf_log("que %d at(%td) (num 1)", k, far[i]);
+        if (a_que_at(q, far[i]) != want) { FAIL(want ? "at-from-front" : "at-out-of-range", "at(%td) on the one-element queue", far[i]); return 0; }
+    }
+    for (int v = 0; v < 3; ++v)
+    {
+        size_t pos, found = SIZE_MAX;
+        a_list *it;
+        q_mk(&XR, m, el2, v == 0 ? el[0] - 1 : v == 1 ? el[0] : el[0] + 1);
+        opname = "push_sort"; vf_log("que %d push_sort key %u beside the only element of key %u", k, el2[0], el[0]);
+        cmp_arm(el2, NULL);
+        p = a_que_push_sort(q, el2, q_cmp);
+        if (cmp_foreign) { FAIL("comparator-received-non-element", "%d comparator calls with a pointer that is neither the only element nor the key", cmp_foreign); return 0; }
+        if (!p) { FAIL("unexpected-null", "push returned null"); return 0; }
+        if (q_enqueued(p)) { FAIL("handed-out-node-still-enqueued", "push returned the address of the enqueued element"); return 0; }
+        memcpy(p, el2, m->siz);
+        for (it = q->head_.next, pos = 0; it != &q->head_ && pos < 3; it = it->next, ++pos)
+        {
+            if ((void *)(it + 1) == p) { found = pos; }
+        }
+        if (found > 1 || (v == 0 && found != 0) || (v == 2 && found != 1)) { FAIL("not-sorted", "key %u went to position %zd beside key %u", el2[0], (ssize_t)found, el[0]); return 0; }
+        qm_insert(m, found, el2, p);
+        if (!que_check()) { return 0; }
+        opname = "remove"; vf_log("que %d remove idx=%zu (num 2)", k, found);
+        p = a_que_remove(q, found);
+        if (p != m->addr[found]) { FAIL("wrong-element-returned", "returned %p, element %zu lives at %p", p, found, m->addr[found]); return 0; }
+        qm_remove(m, found);
+        if (!que_check()) { return 0; }
+    }
+    for (int v = 0; v < 5; ++v)
+    {
+        switch (v)
+        {
+        case 0: opname = "pull_fore"; vf_log("que %d pull_fore (num 1)", k); p = a_que_pull_fore(q); break;
+        case 1: opname = "pull_back"; vf_log("que %d pull_back (num 1)", k); p = a_que_pull_back(q); break;
+        case 2: opname = "remove"; vf_log("que %d remove idx=0 (num 1)", k); p = a_que_remove(q, 0); break;
+        case 3: opname = "remove"; vf_log("que %d remove idx=1 (num 1)", k); p = a_que_remove(q, 1); break;
+        default: opname = "remove"; vf_log("que %d remove idx=SIZE_MAX (num 1)", k); p = a_que_remove(q, SIZE_MAX); break;
+        }
+        if (!qe_gone(k, p)) { return 0; }
+        q_mk(&XR, m, el, -1);
+        switch (v)
+        {
+        case 0: opname = "push_fore"; vf_log("que %d push_fore (num 0)", k); p = a_que_push_fore(q); break;
+        case 1: opname = "push_back"; vf_log("que %d push_back (num 0)", k); p = a_que_push_back(q); break;
+        case 2: opname = "insert"; vf_log("que %d insert idx=0 (num 0)", k); p = a_que_insert(q, 0); break;
+        case 3: opname = "insert"; vf_log("que %d insert idx=1 (num 0)", k); p = a_que_insert(q, 1); break;
+        default: opname = "insert"; vf_log("que %d insert idx=SIZE_MAX (num 0)", k); p = a_que_insert(q, SIZE_MAX); break;
+        }
+        if (!qe_one(k, p, el)) { return 0; }
+    }
+    opname = "drop"; vf_log("que %d drop with destructor (num 1)", k);
+    dt_begin(k);
+    rc = a_que_drop(q, q_dtor);
+    if (!dt_end(k, 1)) { return 0; }
+    if (rc != A_SUCCESS) { FAIL("unexpected-error", "rc %d", rc); return 0; }
+    m->n = 0;
+    if (!que_check()) { return 0; }
+    xform = NULL;
+    vf.evals += 42; /* API calls judged above */
+    return ok;
+}
+/* the queue is emptied by pulls (every node goes to the recycling pool), each judged like the pulls of the history */
+static int que_drain(int k)
+{
+    qmodel *m = &Q[k];
+    a_que *q = m->q;
+    xform = NULL;
+    while (m->n)
+    {
+        int ok = 1, how = (int)vf_below(&XR, 3);
+        size_t at = how == 0 ? 0 : how == 1 ? m->n - 1 : (size_t)vf_below(&XR, m->n);
+        void *p;
+        if (how == 0) { opname = "pull_fore"; vf_log("que %d pull_fore (num %zu)", k, m->n); p = a_que_pull_fore(q); }
+        else if (how == 1) { opname = "pull_back"; vf_log("que %d pull_back (num %zu)", k, m->n); p = a_que_pull_back(q); }
+        else { opname = "remove"; vf_log("que %d remove idx=%zu (num %zu)", k, at, m->n); p = a_que_remove(q, at); }
+        if (p != m->addr[at]) { FAIL("wrong-element-returned", "returned %p, element %zu lives at %p", p, at, m->addr[at]); return 0; }
+        if (memcmp(p, m->pay[at], m->siz) != 0) { FAIL("returned-element-not-intact", "payload changed"); return 0; }
+        qm_remove(m, at);
+        if (!que_check()) { return 0; }
+    }
+    return 1;
+}
+
+/* ------------------------------------------------------------------ que.h: typed mutation macros in place of the functions
+ * XR decides per call: 1/4 FORM(unsigned char, ..), 1/4 FORM(uint64_t, ..) (element size >= 8, else FORM(unsigned char const, ..)),
+ * 1/2 the function. The caller applies the same model update and clauses; `xform` suffixes the key while the form is in flight. */
+#define QX_PICK(FORM, call_uc, call_u64, call_ucc, call_fn)                                      \
+    switch ((int)vf_below(&XR, 4))                                                               \
+    {                                                                                            \
+    case 0:                                                                                      \
+        xform = #FORM; VF_COUNT("form/" #FORM); vf_log("  through " #FORM "(unsigned char, ..)"); \
+        return (void *)call_uc;                                                                  \
+    case 1:                                                                                      \
+        xform = #FORM; VF_COUNT("form/" #FORM);                                                  \
+        if (a_que_siz(q) >= sizeof(uint64_t)) { vf_log("  through " #FORM "(uint64_t, ..)"); return (void *)call_u64; } \
+        vf_log("  through " #FORM "(unsigned char const, ..)");                                  \
+        return (void *)call_ucc;                                                                 \
+    default: return call_fn;                                                                     \
+    }
+static void *qx_push_back(a_que *q) { QX_PICK(A_QUE_PUSH_BACK, A_QUE_PUSH_BACK(unsigned char, q), A_QUE_PUSH_BACK(uint64_t, q), A_QUE_PUSH_BACK(unsigned char const, q), a_que_push_back(q)) }
+static void *qx_push_fore(a_que *q) { QX_PICK(A_QUE_PUSH_FORE, A_QUE_PUSH_FORE(unsigned char, q), A_QUE_PUSH_FORE(uint64_t, q), A_QUE_PUSH_FORE(unsigned char const, q), a_que_push_fore(q)) }
+static void *qx_pull_back(a_que *q) { QX_PICK(A_QUE_PULL_BACK, A_QUE_PULL_BACK(unsigned char, q), A_QUE_PULL_BACK(uint64_t, q), A_QUE_PULL_BACK(unsigned char const, q), a_que_pull_back(q)) }
+static void *qx_pull_fore(a_que *q) { QX_PICK(A_QUE_PULL_FORE, A_QUE_PULL_FORE(unsigned char, q), A_QUE_PULL_FORE(uint64_t, q), A_QUE_PULL_FORE(unsigned char const, q), a_que_pull_fore(q)) }
+static void *qx_insert(a_que *q, size_t idx) { QX_PICK(A_QUE_INSERT, A_QUE_INSERT(unsigned char, q, idx), A_QUE_INSERT(uint64_t, q, idx), A_QUE_INSERT(unsigned char const, q, idx), a_que_insert(q, idx)) }
+static void *qx_remove(a_que *q, size_t idx) { QX_PICK(A_QUE_REMOVE, A_QUE_REMOVE(unsigned char, q, idx), A_QUE_REMOVE(uint64_t, q, idx), A_QUE_REMOVE(unsigned char const, q, idx), a_que_remove(q, idx)) }
+static void *qx_push_sort(a_que *q, void const *key, int (*cmp)(void const *, void const *))
+{
+    QX_PICK(A_QUE_PUSH_SORT, A_QUE_PUSH_SORT(unsigned char, q, key, cmp), A_QUE_PUSH_SORT(uint64_t, q, key, cmp), A_QUE_PUSH_SORT(unsigned char const, q, key, cmp), a_que_push_sort(q, key, cmp))
+}
+
+#pragma GCC pop_options
 
 /* ===================================================================== LARGE-SIZE / LONG-HISTORY workloads
  * One case in 41 (quick) / 1201 (thorough) drives one container family to thousands .. 65537 (thorough: up to ~200000)
